@@ -61,6 +61,10 @@ func parseLoadFile94(reader io.Reader, coresize Address) (WarriorData, error) {
 		if len(fields) != 5 {
 			// empty line
 			if len(fields) == 0 {
+				// nothing but commas is not an empty line
+				if strings.TrimSpace(lower) != "" {
+					return WarriorData{}, fmt.Errorf("line %d: missing instruction", lineNum)
+				}
 				continue
 			}
 
@@ -316,6 +320,10 @@ func parseLoadFile88(reader io.Reader, coresize Address) (WarriorData, error) {
 		if len(fields) != 5 {
 			// empty line
 			if len(fields) == 0 {
+				// nothing but commas is not an empty line
+				if strings.TrimSpace(lower) != "" {
+					return WarriorData{}, fmt.Errorf("line %d: missing instruction", lineNum)
+				}
 				continue
 			}
 
